@@ -728,6 +728,14 @@ func (r *fcgiRig) judge() {
 			if len(fin) == 0 || q.cl.perr != nil {
 				c.Probe("hostile-response-closed-connection")
 			}
+			// a responder that dies after its header block went through: what the client has got
+			// is the beginning of the responder's answer, and nothing is written on top of it
+			if len(fin) == 1 && q.cl.perr == nil && fin[0].Header.Get("X-Resp-Tok") == fmt.Sprintf("tok%d", q.id) && q.method != "HEAD" {
+				if !bytes.HasPrefix(q.script.body, fin[0].Body) {
+					c.Violate("C12/body-altered", "fastcgi/responder-died-after-its-header", "request %d (%s %s): the responder's output broke off (%s) after its header block; the client got status %d and %d body bytes that are not the beginning of the responder's body: ...%q", q.id, q.method, q.path, q.script.hostile, fin[0].Status, len(fin[0].Body), trunc(fin[0].Body[max(0, len(fin[0].Body)-60):], 80))
+				}
+				c.Probe("partial-fastcgi-response-judged")
+			}
 			continue
 		}
 		if r.mode != "C13" {
